@@ -171,7 +171,9 @@ def run(ctx):
                 for (i, si, st) in b.assigns(lambda st: st['lhs']['p'] == ['deref'] and st['lhs']['l'] == 3):
                     stores.append((i, st))
                 after = b.reach([e[1] for e in oe])
-                stores = [(i, st) for (i, st) in stores if i in after and b.dominates(c.bb, i)]
+                # (the write-back may be shared by both arms behind a join: being after this arm's Owned edge is
+                # what matters, not being dominated by this arm's call)
+                stores = [(i, st) for (i, st) in stores if i in after]
                 r = b.reach([e[1] for e in oe], cut_blocks=[i for (i, st) in stores])
                 ctx.check(bool(stores) and bool(oe) and not any(x in r for x in b.returns), 'C15-R2',
                           tag + ':owned-propagates', b,
@@ -195,6 +197,30 @@ def run(ctx):
                                 wrapped_variant = '*'
                                 payload = noref(b.val(cc.args[0]))
                                 okv = payload.kind == sv.kind and payload.key == sv.key
+                    if not okv and st['rv']['k'] == 'use' and st['rv']['op'].get('k') in ('copy', 'move'):
+                        # a write-back shared by both arms (`let replacement = match .. { .. => owned.map(Choice::L) };
+                        # if let Some(r) = replacement { *state = Cow::Owned(r) }`): judged for the executions of
+                        # this arm only - `self` does not change, so its matches agree
+                        from taint import origin_vals_under
+                        self_sws = [sw for sw in b.switches if sw.kind == 'variant' and noref(sw.on).kind == 'arg' and
+                                    noref(sw.on).key == 1 and not noref(sw.on).fields()]
+                        if self_sws and var != '*':
+                            live = b.reach_under([(self_sws, var)], [0])
+                            ws = origin_vals_under(b, st['rv']['op'], live, extra=[{'downcast': 'Owned'}, {'f': 0}])
+                            def ctor_variant(w):
+                                if w.kind == 'agg' and w.key[3]:
+                                    return w.key[2]
+                                if w.kind == 'call' and not w.projs:
+                                    # `owned.map(Choice::L)`: the variant constructor used as a function
+                                    cc_ = b.call_at(w.key)
+                                    if cc_ is not None and cc_.short.split('::')[-1] in ('L', 'R') and len(cc_.args) == 1:
+                                        return cc_.short.split('::')[-1]
+                                return None
+                            if ws and all(ctor_variant(w) for w in ws):
+                                kinds = set(ctor_variant(w) for w in ws)
+                                wrapped_variant = next(iter(kinds)) if len(kinds) == 1 else sorted(kinds)
+                                from taint import origin_vals
+                                okv = True
                     same = wrapped_variant in (var, '*') or var == '*'
                     ctx.check(okv and same, 'C15-R2', tag + ':rewrap-same-variant', b,
                               good='the new inner state is re-wrapped in the same variant (%s)' % var,
